@@ -50,6 +50,9 @@ pub mod watch {
 }
 pub struct TableBootstrap { pub state_rx: watch::Receiver<bootstrap::State> }
 impl TableBootstrap {
+    // bootstrap.rs:76-104: creates the watch channels and spawns the bootstrap task (unit `bootstrap`); the handler only reads the published state
+    #[verifier::external_body]
+    pub fn new(socket: Arc<Socket>, table: Arc<Mutex<RoutingTable>>, id_generator: MIDGenerator, routers: HashSet<String>, nodes: HashSet<SocketAddr>) -> TableBootstrap { unimplemented!() }
     // bootstrap.rs:106-109: tells the bootstrap task to start (a watch send)
     #[verifier::external_body]
     pub fn start(&self) { unimplemented!() }
@@ -134,6 +137,21 @@ pub proof fn lemma_single_chain(r: TableRefresh, t: Timer<ScheduledTaskCheck>, a
 {}
 
 impl TableRefresh {
+//@begin fn src/action/refresh.rs impl:TableRefresh new props=C18,C11
+    pub fn new(id_generator: MIDGenerator, table: Arc<Mutex<RoutingTable>>) -> (r: TableRefresh)
+        ensures r.next_refresh is None, // @C18.no_refresh_timeout_remembered_at_start
+            r.curr_refresh_bucket <= 160, // @C11.refresh_cursor_starts_in_range @C18.refresh_cursor_starts_in_range
+            r.id_generator == id_generator,
+    {
+        TableRefresh {
+            table,
+            id_generator,
+            curr_refresh_bucket: 0,
+            next_refresh: None,
+        }
+    }
+//@end
+
 //@begin fn src/action/refresh.rs impl:TableRefresh action_id
     pub fn action_id(&self) -> (r: ActionID) ensures r.action_id == self.id_generator.action_id >> 24 {
         self.id_generator.action_id()
@@ -301,6 +319,67 @@ pub struct DhtHandler {
 
 
 impl DhtHandler {
+
+//@begin fn src/handler.rs impl:DhtHandler new props=C18,C16,C11,C04,C07
+    pub fn new(
+        this_node_id: NodeId,
+        socket: Socket,
+        read_only: bool,
+        routers: HashSet<String>,
+        nodes: HashSet<SocketAddr>,
+        announce_port: Option<u16>,
+        command_rx: mpsc::UnboundedReceiver<OneshotTask>,
+    ) -> (r: Self)
+        ensures
+            // base case of the handler invariant that run_once / every handle_* preserves: no refresh timeout is pending or remembered, the peer store is well formed
+            r.hinv(), // @C18.single_refresh_chain @C11.single_refresh_chain
+            forall|k: Timeout| !r.timer.pending@.contains_key(k), // @C18.nothing_scheduled_before_the_first_bootstrap @C04.nothing_scheduled_before_the_first_bootstrap
+            r.refresh.next_refresh is None, // @C18.no_refresh_timeout_remembered_at_start
+            // C16: a fresh handler has not finished its initial bootstrap and holds no queued search
+            !r.initial_bootstrap_done, // @C16.initial_bootstrap_not_done_at_start
+            r.pending_lookups@.len() == 0, // @C16.no_search_queued_at_start
+            // C07: the peer store starts empty
+            r.active_stores.expires@.len() == 0, // @C07.store_starts_empty
+            r.running, // @carrier.handler_starts_running
+            r.this_node_id == this_node_id && r.read_only == read_only && r.announce_port == announce_port, // @carrier.constructor_keeps_its_arguments
+    {
+        let socket = Arc::new(socket);
+        let table = Arc::new(Mutex::new(RoutingTable::new(this_node_id)));
+
+        let mut aid_generator = AIDGenerator::new();
+
+        // The refresh task to execute after the bootstrap
+        let mid_generator = aid_generator.generate();
+        let table_refresh = TableRefresh::new(mid_generator, table.clone());
+
+        let mid_generator = aid_generator.generate();
+        let bootstrap =
+            TableBootstrap::new(socket.clone(), table.clone(), mid_generator, routers, nodes);
+
+        let timer = Timer::new();
+
+        Self {
+            this_node_id,
+            running: true,
+            command_rx,
+            timer,
+            read_only,
+            announce_port,
+            socket,
+            token_store: TokenStore::new(),
+            aid_generator,
+            routing_table: table,
+            active_stores: AnnounceStorage::new(),
+            bootstrap,
+            next_bootstrap_txs_id: 0,
+            bootstrap_txs: HashMap::new(),
+            initial_bootstrap_done: false,
+            pending_lookups: Vec::new(),
+            refresh: table_refresh,
+            lookups: HashMap::new(),
+        }
+    }
+//@end
 
 //@begin fn src/handler.rs impl:DhtHandler run_once rules=R-deasync,R-select props=C14,C15,C16,C18,C11,C04
     pub fn run_once(&mut self, Tracked(tr): Tracked<&mut Trace>)
